@@ -144,6 +144,54 @@ func TestCases(t *testing.T) {
 			done := make(chan struct{})
 			go func() { p.Run(ctx); close(done) }()
 			synctest.Wait()
+			lazy := (ran/(3*len(cfgs)))%2 == 1 // every other round of configurations: answers are read at the end of the history
+			type asked struct {
+				i       int
+				s       step
+				textual []string
+			}
+			var pending []asked
+			// judge compares one answer with what the history says the IP's current pod was when the lookup was made
+			// agrees: the answer is what the history expects for that lookup (used to pair answers that were read later with their lookups)
+			agrees := func(s step, inst *gostatsd.Instance) bool {
+				if s.Exp.Name == "" || inst == nil {
+					return (s.Exp.Name == "") == (inst == nil)
+				}
+				want := cfg.expect(s.Exp.Ver, s.Exp.Name)
+				got := append([]string{}, inst.Tags...)
+				sort.Strings(want)
+				sort.Strings(got)
+				return string(inst.ID) == "ns/"+s.Exp.Name && fmt.Sprint(got) == fmt.Sprint(want)
+			}
+			judge := func(i int, s step, inst *gostatsd.Instance, textual []string) {
+				res.Eval(i >= 2)
+			rec := map[string]any{"history": textual, "step": i, "case": idx, "label_regex": fmt.Sprint(cfg.label), "annotation_regex": fmt.Sprint(cfg.ann)}
+			switch {
+			case s.Exp.Name == "" && inst != nil:
+				res.Fail("C13", "stale-or-phantom-answer", fmt.Sprintf("step %d %s(%s): answered %s %v although no running pod holds the IP; history %v", i, s.Op, s.IP, inst.ID, inst.Tags, textual), rec)
+			case s.Exp.Name != "" && inst == nil:
+				res.Fail("C13", "no-answer-for-current-pod", fmt.Sprintf("step %d %s(%s): nothing although pod %s v%d holds the IP; history %v", i, s.Op, s.IP, s.Exp.Name, s.Exp.Ver, textual), rec)
+			case s.Exp.Name != "":
+				want := cfg.expect(s.Exp.Ver, s.Exp.Name)
+				got := append([]string{}, inst.Tags...)
+				sort.Strings(want)
+				sort.Strings(got)
+				if string(inst.ID) != "ns/"+s.Exp.Name {
+					res.Fail("C13", "wrong-pod", fmt.Sprintf("step %d: identity %s want ns/%s; history %v", i, inst.ID, s.Exp.Name, textual), rec)
+				} else if fmt.Sprint(got) != fmt.Sprint(want) {
+					sig := "wrong-tags"
+					other := cfg.expect(3-s.Exp.Ver, s.Exp.Name)
+					sort.Strings(other)
+					if fmt.Sprint(got) == fmt.Sprint(other) {
+						sig = "stale-version"
+					}
+					res.Fail("C13", sig, fmt.Sprintf("step %d: tags %v want %v (pod %s v%d); history %v", i, got, want, s.Exp.Name, s.Exp.Ver, textual), rec)
+				}
+				res.Hit("answered-pod")
+			default:
+				res.Hit("answered-nothing")
+			}
+			}
 			var textual []string
 			for i, s := range c.Hist {
 				switch s.Op {
@@ -184,6 +232,14 @@ func TestCases(t *testing.T) {
 				var inst *gostatsd.Instance
 				if s.Op == "peek" {
 					inst, _ = p.Peek(gostatsd.Source(ipOf[s.IP]))
+				} else if lazy {
+					// a consumer that is behind: the request is taken (the provider computes the answer now), the answer is read later,
+					// after whatever the history does next -- further events, further lookups of the same IP
+					p.IpSink() <- gostatsd.Source(ipOf[s.IP])
+					synctest.Wait()
+					pending = append(pending, asked{i, s, append([]string{}, textual...)})
+					res.Hit("answer-read-later")
+					continue
 				} else {
 					p.IpSink() <- gostatsd.Source(ipOf[s.IP])
 					info := <-p.InfoSource()
@@ -192,33 +248,48 @@ func TestCases(t *testing.T) {
 						res.Fail("C13", "answer-for-wrong-ip", fmt.Sprintf("asked %s, answered %s", ipOf[s.IP], info.IP), map[string]any{"history": textual})
 					}
 				}
-				res.Eval(i >= 2)
-				rec := map[string]any{"history": textual, "step": i, "case": idx, "label_regex": fmt.Sprint(cfg.label), "annotation_regex": fmt.Sprint(cfg.ann)}
-				switch {
-				case s.Exp.Name == "" && inst != nil:
-					res.Fail("C13", "stale-or-phantom-answer", fmt.Sprintf("step %d %s(%s): answered %s %v although no running pod holds the IP; history %v", i, s.Op, s.IP, inst.ID, inst.Tags, textual), rec)
-				case s.Exp.Name != "" && inst == nil:
-					res.Fail("C13", "no-answer-for-current-pod", fmt.Sprintf("step %d %s(%s): nothing although pod %s v%d holds the IP; history %v", i, s.Op, s.IP, s.Exp.Name, s.Exp.Ver, textual), rec)
-				case s.Exp.Name != "":
-					want := cfg.expect(s.Exp.Ver, s.Exp.Name)
-					got := append([]string{}, inst.Tags...)
-					sort.Strings(want)
-					sort.Strings(got)
-					if string(inst.ID) != "ns/"+s.Exp.Name {
-						res.Fail("C13", "wrong-pod", fmt.Sprintf("step %d: identity %s want ns/%s; history %v", i, inst.ID, s.Exp.Name, textual), rec)
-					} else if fmt.Sprint(got) != fmt.Sprint(want) {
-						sig := "wrong-tags"
-						other := cfg.expect(3-s.Exp.Ver, s.Exp.Name)
-						sort.Strings(other)
-						if fmt.Sprint(got) == fmt.Sprint(other) {
-							sig = "stale-version"
-						}
-						res.Fail("C13", sig, fmt.Sprintf("step %d: tags %v want %v (pod %s v%d); history %v", i, got, want, s.Exp.Name, s.Exp.Ver, textual), rec)
-					}
-					res.Hit("answered-pod")
+				judge(i, s, inst, textual)
+			}
+			// the lazy consumer catches up: one answer per lookup, each the pod that held the IP when the lookup was made
+			var answers []gostatsd.InstanceInfo
+			for range pending {
+				synctest.Wait()
+				select {
+				case info := <-p.InfoSource():
+					answers = append(answers, info)
 				default:
-					res.Hit("answered-nothing")
 				}
+			}
+			if len(answers) != len(pending) {
+				res.Fail("C13", "lookup-never-answered", fmt.Sprintf("%d lookups were made while the consumer was behind, %d answers came; history %v", len(pending), len(answers), textual),
+					map[string]any{"history": textual, "case": idx})
+			}
+			// the order in which outstanding answers come is the provider's business: pair each answer with a lookup of the same IP that
+			// it agrees with, if there is one; what cannot be paired is judged against the newest lookup still open
+			used := make([]bool, len(pending))
+			for _, info := range answers {
+				pick := -1
+				for k := len(pending) - 1; k >= 0; k-- {
+					if used[k] || ipOf[pending[k].s.IP] != string(info.IP) {
+						continue
+					}
+					if pick < 0 {
+						pick = k
+					}
+					if agrees(pending[k].s, info.Instance) {
+						pick = k
+						break
+					}
+				}
+				if pick < 0 {
+					res.Fail("C13", "answer-for-wrong-ip", fmt.Sprintf("an answer for %s that no open lookup asked for; history %v", info.IP, textual), map[string]any{"history": textual, "case": idx})
+					continue
+				}
+				used[pick] = true
+				judge(pending[pick].i, pending[pick].s, info.Instance, pending[pick].textual)
+			}
+			if len(pending) >= 2 {
+				res.Hit("several-answers-outstanding")
 			}
 			cancel()
 			<-done
